@@ -284,14 +284,20 @@ def consensus_model(ctx):
             if isinstance(base, str) and base in frs:
                 return dict(frs[base]) if call.func.attr == 'get_consensus' else True
         return NotImplemented
+    # second family: one position, up to four fragments, three letters, two qualities (a vote is a vote whatever its quality; a plurality of 2 out of 4 wins)
+    one = {'A10': ('A', 10), 'A40': ('A', 40), 'C10': ('C', 10), 'C40': ('C', 40), 'G10': ('G', 10), 'N0': ('N', 0), 'none': None}
+    for k_, c_ in one.items():
+        frs['q' + k_] = {('c', 1): c_} if c_ is not None else {}
     n = 0
     sc = dict(cls.scope)
     sc['__class__'] = cls
+    family1 = [(size, combo) for size in (1, 2, 3) for combo in itertools.combinations_with_replacement(sorted(k_ for k_ in frs if k_.startswith('f')), size)]
+    family2 = [(size, combo) for size in (2, 3, 4) for combo in itertools.combinations_with_replacement(sorted(k_ for k_ in frs if k_.startswith('q')), size)]
     try:
-        for size in (1, 2, 3):
-            for combo in itertools.combinations_with_replacement(sorted(frs), size):
+        for size, combo in family1 + family2:
+            if True:
                 for order in ((combo, combo[::-1]) if size > 1 else (combo,)):
-                    for with_bad in ((False, True) if size == 2 else (False,)):
+                    for with_bad in ((False, True) if size == 2 and combo[0].startswith('f') else (False,)):
                         n += 1
                         members = list(order)
                         if with_bad:
